@@ -155,4 +155,11 @@ theorem two_puts_distinct_versions (kv : KV) (hinv : Setec.KV.Inv kv) (n : Strin
         have := ((hinv1 n s1 hs1).2 k1 hmem).2
         omega
 
+/-! ### T1: functions the model transcribes, statement by statement (white space collapsed) -/
+
+def expected_DB_List : List String := ["db.mu.Lock()", "defer db.mu.Unlock()", "err := db.auditLog.WriteEntries(&audit.Entry{ Principal: caller.Principal, Action: acl.ActionInfo, Authorized: true, })", "if err != nil { return nil, fmt.Errorf(\"writing audit log: %w\", err) }", "var ret []*api.SecretInfo", "for _, name := range db.kv.list() { if !caller.Permissions.Allow(acl.ActionInfo, name) { continue } info, err := db.kv.info(name) if err != nil { return nil, err } ret = append(ret, info) }", "slices.SortFunc(ret, func(a, b *api.SecretInfo) int { return strings.Compare(a.Name, b.Name) })", "return ret, nil"]
+
+/-- DB.List: under the mutex from the first statement to the last - the record, every name the caller may see, sorted -/
+theorem fact_DB_List_as_transcribed : Facts.body_DB_List = expected_DB_List := by rfl
+
 end Setec.C14
